@@ -154,8 +154,8 @@ def run(ctx):
     from ..shared import memo_rule as _memo_rule, cached_param_rule as _cached_param_rule
 
     _scope = ("EasyFEA.Simulations._simu", "EasyFEA.Simulations.Solvers")
-    _memo_rule(ctx, "R5.8", scope=lambda f: f.module.name.startswith(_scope), min_instances=0)
-    _cached_param_rule(ctx, "R5.9", min_instances=20)
+    ctx.attempt(_memo_rule, ctx, "R5.8", scope=lambda f: f.module.name.startswith(_scope), min_instances=0)
+    ctx.attempt(_cached_param_rule, ctx, "R5.9", min_instances=20)
     repo = ctx.repo
     ctx.level = "proof"
     ctx.explanation = (
